@@ -10,7 +10,7 @@ open Coraza
 
 /-- Close: `tx.variables.reset()` empties every collection; nothing else is reset there -/
 def closeTx (tx : Tx) : Tx :=
-  { tx with rl := {}, argsGet := {}, argsPost := {}, argsPath := {}, reqHeaders := {}, reqCookies := {}, respHeaders := {},
+  { tx with rl := {}, argsGet := {}, argsPost := {}, argsPath := {}, reqHeaders := {}, reqCookies := {}, respHeaders := {}, env := {},
             txc := {}, matchedVars := {},
             matchedVar := [], matchedVarName := [], highestSeverity := 0, respStatus := [] }
 
